@@ -2,7 +2,9 @@
    Only statements; every proof is [exact lemma].
 
    Reading guide.  [F] = float objects, [T] = float tokens of a file, [fv f] = exact value of f (None = NaN),
-   [cparse] = what Constraint(op string) makes of a declaration (operator, threshold).
+   [cparse] = what Constraint(op string) makes of a declaration text (operator, threshold); [cfun k] = the behaviour of the
+   callable of a declaration Constraint(function) (arbitrary; "any non-zero value is a violation").
+   [save_then_load old sup x] = load_json (save_json x) with problem=sup (an exception while saving is the result).
    PROVED (about the abstract structure): the encoder's trees, json's bottom-up object_hook traversal,
    the placeholder / rebuild / re-attach logic of the REPAIRED decoder, FixedLengthArray slice assignment,
    recomputation of violation and feasibility, the objectives line format with blank-line skipping.
@@ -21,6 +23,7 @@ Section C19.
   Variables F T : Type.
   Variable fv : F -> option xq.
   Variable cparse : string -> option (js_cop * xq).
+  Variable cfun : Z -> js_fval -> js_fval.
   Variable pr : F -> T.
   Variable pa : T -> F.
   Hypothesis RT : forall f, fv f <> None -> pa (pr f) = f.
@@ -41,25 +44,25 @@ Section C19.
   Theorem c19_json_roundtrip_list : forall sup sols nv no nc,
     wf_sols F fv nv no nc sols = true -> wf_supplied cparse nv no nc sup = true ->
     exists st outs,
-      load_json F fv cparse T pa sup (save_json F T pr (SvList F sols)) = Ok (st, PList F (map (PSol F) outs)) /\
-      Forall2 (same_as F fv cparse (load_problem sup nv no nc)) sols outs /\
+      save_then_load F fv cparse cfun T pr pa false sup (SvList F sols) = Ok (st, PList F (map (PSol F) outs)) /\
+      Forall2 (same_as F fv cparse cfun (load_problem sup nv no nc)) sols outs /\
       (sols <> [] -> st = Some (load_problem sup nv no nc)).
-  Proof. exact (json_roundtrip_list F T fv cparse pr pa RT H0). Qed.
+  Proof. exact (json_roundtrip_list F T fv cparse cfun pr pa RT H0). Qed.
 
   Theorem c19_json_roundtrip_archive : forall sup sols nv no nc,
     wf_sols F fv nv no nc sols = true -> wf_supplied cparse nv no nc sup = true ->
     exists st outs,
-      load_json F fv cparse T pa sup (save_json F T pr (SvArchive F sols)) = Ok (st, PList F (map (PSol F) outs)) /\
-      Forall2 (same_as F fv cparse (load_problem sup nv no nc)) sols outs /\
+      save_then_load F fv cparse cfun T pr pa false sup (SvArchive F sols) = Ok (st, PList F (map (PSol F) outs)) /\
+      Forall2 (same_as F fv cparse cfun (load_problem sup nv no nc)) sols outs /\
       (sols <> [] -> st = Some (load_problem sup nv no nc)).
-  Proof. exact (json_roundtrip_archive F T fv cparse pr pa RT H0). Qed.
+  Proof. exact (json_roundtrip_archive F T fv cparse cfun pr pa RT H0). Qed.
 
   (* written from a live algorithm, nothing supplied on load: the decoder's problem is the one REBUILT from the
      saved definition, every solution is attached to it, violation/feasibility recomputed against the SAVED
      declarations (algo_roundtrip_stmt ... false = the repaired hook) *)
   Theorem c19_json_roundtrip_algorithm : forall a, wf_algo F fv cparse a = true ->
-    algo_roundtrip_stmt F T fv cparse pr pa false a.
-  Proof. exact (json_roundtrip_algorithm F T fv cparse pr pa RT H0). Qed.
+    algo_roundtrip_stmt F T fv cparse cfun pr pa false a.
+  Proof. exact (json_roundtrip_algorithm F T fv cparse cfun pr pa RT H0). Qed.
 
   (* ... and that rebuilt problem has the saved shape, directions and constraint declarations *)
   Theorem c19_rebuilt_problem_spec : forall p,
@@ -72,9 +75,9 @@ Section C19.
   Theorem c19_json_roundtrip_algorithm_supplied : forall a q, wf_algo F fv cparse a = true ->
     wf_supplied cparse (p_nvars (a_problem F a)) (p_nobjs (a_problem F a)) (p_nconstrs (a_problem F a)) (Some q) = true ->
     exists outs,
-      load_json F fv cparse T pa (Some q) (save_json F T pr (SvAlgorithm F a)) = Ok (Some q, PList F (map (PSol F) outs)) /\
-      Forall2 (same_as F fv cparse q) (a_result F a) outs.
-  Proof. exact (json_roundtrip_algorithm_supplied F T fv cparse pr pa RT). Qed.
+      save_then_load F fv cparse cfun T pr pa false (Some q) (SvAlgorithm F a) = Ok (Some q, PList F (map (PSol F) outs)) /\
+      Forall2 (same_as F fv cparse cfun q) (a_result F a) outs.
+  Proof. exact (json_roundtrip_algorithm_supplied F T fv cparse cfun pr pa RT). Qed.
 
   (* objectives text file: every objective value and the order of solutions, for >= 1 objective *)
   Theorem c19_objectives_roundtrip : forall sup sols no, (1 <= no)%nat ->
@@ -92,12 +95,18 @@ Section C19.
     exists lines, save_objectives F T opr sols = Ok lines /\ load_objectives F T opa sup lines = [].
   Proof. exact (objectives_roundtrip_zero_objs F T fv opr opa). Qed.
 
-  (* "feasibility recomputed consistently with the declarations": for finite thresholds, violation == 0
-     exactly when every declared relation holds of its constraint value (exact arithmetic) *)
+  (* the supplied problem may declare constraints by FUNCTIONS (wf_supplied accepts DFun); the violation is then
+     sum |f_i(x_i)| of the callables' signed values.  Such a problem cannot be WRITTEN as part of an algorithm: *)
+  Theorem c19_algorithm_callable_raises : forall old sup a, all_dop (p_cons (a_problem F a)) = false ->
+    save_then_load F fv cparse cfun T pr pa old sup (SvAlgorithm F a) = Err EType.
+  Proof. exact (json_algorithm_callable_raises F T fv cparse cfun pr pa). Qed.
+
+  (* "feasibility recomputed consistently with the declarations": for finite thresholds, violation == 0 exactly
+     when every declared relation holds of its constraint value / every callable returns 0 (exact arithmetic) *)
   Theorem c19_feasible_iff : forall cs xs v, finite_thresholds cparse cs ->
-    js_viol F fv cparse cs xs = Ok v ->
-    js_fzero v = forallb (fun p => pair_holds F fv cparse (fst p) (snd p)) (combine cs xs).
-  Proof. exact (js_feasible_iff F fv cparse). Qed.
+    js_viol F fv cparse cfun cs xs = Ok v ->
+    js_fzero v = forallb (fun p => pair_holds F fv cparse cfun (fst p) (snd p)) (combine cs xs).
+  Proof. exact (js_feasible_iff F fv cparse cfun). Qed.
 End C19.
 
 (* the hypotheses are satisfiable: the executable instance run by the correspondence *)
@@ -110,20 +119,31 @@ Proof. exact inst_H0. Qed.
 Theorem c19_ex_algo_wf : wf_algo Z f64_val ex_cparse ex_algo = true.
 Proof. exact ex_algo_wf. Qed.
 Theorem c19_ex_sols_wf : wf_sols Z f64_val 4 2 1 ex_sols = true /\ wf_sols Z f64_val 4 2 1 [] = true /\
-  wf_supplied ex_cparse 4 2 1 None = true /\ wf_supplied ex_cparse 4 2 1 (Some ex_supplied) = true.
+  wf_supplied ex_cparse 4 2 1 None = true /\ wf_supplied ex_cparse 4 2 1 (Some ex_supplied) = true /\
+  wf_supplied ex_cparse 4 2 1 (Some ex_supplied_fn) = true.
 Proof. exact ex_sols_wf. Qed.
 Theorem c19_ex_objs_wf : forallb (wf_objs Z f64_val 2) ex_sols = true.
 Proof. exact ex_objs_wf. Qed.
 
 Theorem c19_ex_feasible_iff :
-  finite_thresholds ex_cparse ["==0"%string; "<=0.5"%string] /\
-  (exists v, js_viol Z f64_val ex_cparse ["==0"%string; "<=0.5"%string] [JNum b_negzero; JNum b_quarter] = Ok v /\ js_fzero v = true) /\
-  (exists v, js_viol Z f64_val ex_cparse ["==0"%string; "<=0.5"%string] [JNum b_negzero; JNum b_3quarter] = Ok v /\ js_fzero v = false).
+  finite_thresholds ex_cparse [DOp "==0"; DOp "<=0.5"; DFun 0] /\
+  (exists v, js_viol Z f64_val ex_cparse ex_cfun [DOp "==0"; DOp "<=0.5"; DFun 0] [JNum b_negzero; JNum b_quarter; JNum b_quarter] = Ok v /\ js_fzero v = true) /\
+  (exists v, js_viol Z f64_val ex_cparse ex_cfun [DOp "==0"; DOp "<=0.5"; DFun 0] [JNum b_negzero; JNum b_quarter; JNum b_negzero] = Ok v /\ js_fzero v = false).
 Proof. exact ex_feasible_iff. Qed.
+
+(* a problem supplied on load whose constraint is the callable x - 0.25, constraint values -0.0 and 0.75: the callable
+   returns -0.25 and +0.5; the loaded violations are 0.25 and 0.5 (magnitudes; a sum without abs() would give -0.25) *)
+Theorem c19_ex_sols_callable :
+  exists st outs,
+    save_then_load Z f64_val ex_cparse ex_cfun Z xid xid false (Some ex_supplied_fn) (SvList Z ex_sols)
+      = Ok (st, PList Z (map (PSol Z) outs)) /\
+    map (ps_feas Z) outs = [false; false] /\
+    map (fun o => js_fval_same (ps_cv Z o)) outs = map js_fval_same [Some (F 1 (-2)); Some (F 1 (-1))].
+Proof. exact ex_sols_callable. Qed.
 
 (* the theorem distinguishes the repaired defect (fix dc48d2e): the decoder as it was before the repair
    does NOT satisfy the algorithm round trip, on a saved algorithm with a maximised objective and "<=0.5" *)
 Theorem c19_json_decoder_old_refuted :
   exists a, wf_algo Z f64_val ex_cparse a = true /\
-            ~ algo_roundtrip_stmt Z Z f64_val ex_cparse xid xid true a.
+            ~ algo_roundtrip_stmt Z Z f64_val ex_cparse ex_cfun xid xid true a.
 Proof. exact json_decoder_old_refuted. Qed.
